@@ -90,6 +90,9 @@ func (vm *VM) FindModuleByName(name string) *Module {
 func (vm *VM) CheckDepedency(name string) error {
 	moduleID, exists := vm.moduleGraph.GetIDFromName(name)
 	if exists {
+		// record the dependency (current module -> imported module) first: a module that
+		// has been allocated before adds no edge by itself, including the one closing a cycle
+		vm.moduleGraph.AddDependency(vm.csModuleID, name, moduleID)
 		// check circular dependency
 		if vm.moduleGraph.CheckCircularDepedency(vm.csModuleID, moduleID) {
 			return zerr.ModuleCircularDependency()
